@@ -151,7 +151,13 @@ pub fn judge_wide(sut: &dyn Sut, c: &Case, stats: &mut Stats) -> Result<(), Stri
             }
         }
         SourceKind::Missing => return Err(format!("no SOURCE constant in the output\n{}", ctx())),
-        other => return Err(format!("SOURCE of the embedded variant is not a string literal: {other:?}\n{}", ctx())),
+        SourceKind::Include(p) => return Err(format!("SOURCE of the embedded variant is include_str!({p:?}), not the source text\n{}", ctx())),
+        SourceKind::Unknown(_) => {
+            // an initialiser this reader cannot evaluate: the executed width (rustc evaluates the
+            // constant) decides
+            stats.class("reader_deferred_unknown_source_form");
+            return Ok(());
+        }
     }
     stats.sample(|| json!({"wgsl": c.wgsl, "include_path": c.include_path, "rustfmt": c.rustfmt}));
     if let Some(path) = &c.include_path {
@@ -166,6 +172,10 @@ pub fn judge_wide(sut: &dyn Sut, c: &Case, stats: &mut Stats) -> Result<(), Stri
                 if p != path {
                     return Err(format!("SOURCE is include_str!({p:?}), the given path is {path:?}\n{}", ctx()));
                 }
+            }
+            SourceKind::Unknown(_) => {
+                stats.class("reader_deferred_unknown_source_form");
+                return Ok(());
             }
             other => return Err(format!("SOURCE of the include variant is {other:?}, expected include_str! of the given path\n{}", ctx())),
         }
